@@ -42,13 +42,17 @@ def _decision(name, did, reqs, logic, type_ref=None):
     return '<decision name="%s" id="%s"><variable name="%s"%s/>%s%s</decision>' % (name, did, name, tr, reqs, logic)
 
 
-def _table(hit_policy, aggregation, inputs, output_type, rules, output_name=None):
+def _table(hit_policy, aggregation, inputs, output_type, rules, output_name=None, output_values=None):
     """inputs: [(expr, type)], rules: [([input entries], output entry)]"""
     agg = ' aggregation="%s"' % aggregation if aggregation else ""
     s = ['<decisionTable hitPolicy="%s"%s>' % (hit_policy, agg)]
     for expr, typ in inputs:
         s.append('<input><inputExpression typeRef="%s"><text>%s</text></inputExpression></input>' % (typ, escape(expr)))
-    s.append('<output%s typeRef="%s"/>' % ((' name="%s"' % output_name) if output_name else "", output_type))
+    if output_values:
+        s.append('<output%s typeRef="%s"><outputValues><text>%s</text></outputValues></output>' % (
+            (' name="%s"' % output_name) if output_name else "", output_type, escape(output_values)))
+    else:
+        s.append('<output%s typeRef="%s"/>' % ((' name="%s"' % output_name) if output_name else "", output_type))
     for ins, out in rules:
         s.append("<rule>")
         for e in ins:
@@ -148,6 +152,18 @@ def build():
                                (['"alpha1"', "-"], '"A"'), (['"beta22x"', "< 5"], '"B<5"'), (['"beta22x"', "-"], '"B"'),
                                (["-", "0"], '"zero:" + s'), (["-", "[1..3]"], '"few:" + s'), (["-", "-"], '"other:" + s + string(k)')]),
                            "string"))
+    # priority hit policies: several rules match, the rule order is the REVERSE of the order of the output values, so anything that
+    # loses the output values (evaluated with the table, possibly lazily) shows as another value / another order
+    levels = [([">= 0"], '"Basic"'), ([">= 10"], '"Bronze"'), ([">= 20"], '"Silver"'), ([">= 30"], '"Gold"'), ([">= 40"], '"Platinum"')]
+    values = '"Platinum", "Gold", "Silver", "Bronze", "Basic"'
+    parts.append(_decision("Ranked", "_ranked", _req_inputs(["n"]),
+                           _table("PRIORITY", None, [("n", "number")], "string", levels, output_values=values), "string"))
+    parts.append(_decision("Ordered", "_ordered", _req_inputs(["n"]),
+                           _table("OUTPUT ORDER", None, [("n", "number")], "string", levels, output_values=values)))
+    parts.append(_decision("Listed", "_listed", _req_inputs(["n"]),
+                           _table("RULE ORDER", None, [("n", "number")], "string", levels)))
+    parts.append(_decision("Least", "_least", _req_inputs(["n", "k"]),
+                           _table("COLLECT", "MIN", [("n", "number"), ("k", "number")], "number", _collect_rules()), "number"))
     # --- nested requirements: Top -> Mid -> BKM Calc -> decision service Svc -> Leaf -> Base ---------------
     parts.append(_decision("Base", "_base", _req_inputs(["n", "k"]), _literal("n * 2 + k"), "number"))
     parts.append(_decision("Leaf", "_leaf", _req_decisions(["_base"]) + _req_inputs(["m"]),
@@ -186,10 +202,10 @@ CLASSES = {
     "numeric": ["Numeric", "Powers", "Rounding"],
     "temporal": ["Temporal"],
     "regex": ["Regex", "Flags", "Priority"],
-    "table": ["Grid", "Collect", "Priority"],
+    "table": ["Grid", "Collect", "Priority", "Ranked", "Ordered", "Listed", "Least"],
     "nested": ["Top", "Mid", "Outer", "Svc", "Leaf", "Calc", "Band"],
 }
-INVOCABLES = ["Numeric", "Powers", "Rounding", "Temporal", "Regex", "Flags", "Grid", "Collect", "Priority", "Base", "Leaf", "Svc", "Calc", "Band",
+INVOCABLES = ["Numeric", "Powers", "Rounding", "Temporal", "Regex", "Flags", "Grid", "Collect", "Priority", "Ranked", "Ordered", "Listed", "Least", "Base", "Leaf", "Svc", "Calc", "Band",
               "Mid", "Top", "Outer"]
 
 
